@@ -10,7 +10,7 @@ EXPLANATION = ("Kani/CBMC bounded verdicts over the real TokenBucket (stubbed mo
                "obligations over RateLimiter::check_limit decided by z3; see obligation_results for bounds.")
 TRUSTED_BASE = ["rustc MIR construction", "Kani 0.68 MIR->goto translation", "CBMC 6.11 float/bit-vector semantics + CaDiCaL",
                 "stub: std::time::Instant::now -> harness-controlled monotonic clock"]
-NOT_COVERED = ["concurrent callers (mutex-protected; sequential semantics assumed)", "server wiring per streamed item", "a direct k-call window harness (3 calls, concrete capacity 1) did not finish in 20 min of CaDiCaL and was removed; the window bound follows from the inductive step O19.1a+O19.1b by the potential-function argument in the harness comment (paper step)",
+NOT_COVERED = ["concurrent callers (mutex-protected; sequential semantics assumed)", "admin/observability RPCs (Health, Metrics, FlushHotTier, CreateSnapshot, GetConfig) are not rate limited by design and are outside O19.4", "a direct k-call window harness (3 calls, concrete capacity 1) did not finish in 20 min of CaDiCaL and was removed; the window bound follows from the inductive step O19.1a+O19.1b by the potential-function argument in the harness comment (paper step)",
                "symbolic elapsed*rate products (capacity x elapsed is a concrete 14-row table in the amount harnesses)"]
 ASSUMPTIONS = ["1 <= capacity <= 10^6, refill_rate == capacity (only constructor)", "elapsed <= 10^4 s per step"]
 
